@@ -510,3 +510,87 @@ def source_before(a, b):
     if not sa or not sb or sa[0] != sb[0]:
         return False
     return (sa[1], sa[2]) < (sb[1], sb[2])
+
+
+# ---------------------------------------------------------------------------
+# path enumeration over structured HIR (A2'): which events happen on each path through a region
+
+def paths(e, classify, limit=256):
+    """All control paths through e as (ctx, events, exit): ctx = list of (label, node) decisions taken (match arm patterns /
+    then / else), events = labels returned by classify(node) for the Call/MCall/Assign/Ret nodes met in source order,
+    exit = None (falls through) | 'continue' | 'break' | 'return' | 'try' is not modelled (a `?` is an event if classify says so).
+    Closures are not entered. The number of paths is capped (the regions this is used on are small)."""
+    def leaf_events(n):
+        out = []
+        for x in walk(n, enter_closures=False):
+            if x.get('k') in ('Call', 'MCall', 'Assign', 'AssignOp', 'Try'):
+                lab = classify(x)
+                if lab is not None:
+                    out.append((lab, x))
+        out.sort(key=lambda t: ((t[1].get('sp') or [0, 0, 0])[1], (t[1].get('sp') or [0, 0, 0])[2]))
+        return [lab for lab, _ in out]
+
+    def go(n, ctx):
+        k = n.get('k')
+        if k == 'Block':
+            acc = [(ctx, [], None)]
+            seq = list(n.get('stmts', [])) + ([n['e']] if 'e' in n else [])
+            for part in seq:
+                nxt = []
+                for c0, ev0, ex0 in acc:
+                    if ex0 is not None:
+                        nxt.append((c0, ev0, ex0))
+                        continue
+                    for c1, ev1, ex1 in go(part, c0):
+                        nxt.append((c1, ev0 + ev1, ex1))
+                acc = nxt[:limit]
+            return acc
+        if k in ('Semi', 'Expr'):
+            return go(n['e'], ctx)
+        if k == 'Let':
+            out = go(n['init'], ctx) if n.get('init') is not None else [(ctx, [], None)]
+            if n.get('els') is not None:
+                out = out + [(c + [('let-else', n)], ev + ev2, ex2) for c, ev, _ in out for _, ev2, ex2 in go(n['els'], c)]
+            return out
+        if k == 'If':
+            cond_ev = leaf_events(n['c'])
+            out = []
+            for c1, ev1, ex1 in go(n['then'], ctx + [('then', n)]):
+                out.append((c1, cond_ev + ev1, ex1))
+            if 'els' in n:
+                for c1, ev1, ex1 in go(n['els'], ctx + [('else', n)]):
+                    out.append((c1, cond_ev + ev1, ex1))
+            else:
+                out.append((ctx + [('else', n)], list(cond_ev), None))
+            return out
+        if k == 'Match':
+            scr = leaf_events(n['e'])
+            out = []
+            for a in n['arms']:
+                g = leaf_events(a['guard']) if 'guard' in a else []
+                for c1, ev1, ex1 in go(a['body'], ctx + [('arm', a)]):
+                    out.append((c1, scr + g + ev1, ex1))
+            return out
+        if k == 'Continue':
+            return [(ctx, [], 'continue')]
+        if k == 'Break':
+            return [(ctx, [], 'break')]
+        if k == 'Ret':
+            return [(ctx, leaf_events(n['e']) if n.get('e') is not None else [], 'return')]
+        if k in ('For', 'Loop'):
+            return [(ctx, leaf_events(n), None)]     # inner loops: flat
+        return [(ctx, leaf_events(n), None)]
+    return go(e, [])
+
+
+def describe_ctx(ctx):
+    from facts import pp as _pp
+    out = []
+    for lab, node in ctx:
+        if lab == 'arm':
+            out.append(_pp(node['pat'], maxlen=40) + (' if ..' if 'guard' in node else ''))
+        elif lab in ('then', 'else'):
+            out.append(('' if lab == 'then' else '!') + '(' + _pp(node['c'], maxlen=40) + ')')
+        else:
+            out.append(lab)
+    return ' / '.join(out)
